@@ -199,6 +199,7 @@ func c03One(o *out, c chain, tag string) {
 	b.close()
 	o.addCase("(1 "+b.String()+")", got, c.text)
 	o.addCase("(2 "+b.String()+")", got, c.text)
+	addParseExprCase(o, c.text, nil) // the whole-parser model on the same text
 	if len(c.ops) >= 2 {
 		o.nontrivial(c.text)
 	}
